@@ -13,7 +13,25 @@ fn meas(p: &(usize, usize, usize, usize)) -> String {
     format!("{},{},{},{}", p.0, p.1, p.2, p.3)
 }
 
-pub fn exec_hist(ops: Vec<Op>) -> Case {
+/// the raw union-find table of the dump (no path compression is triggered by dumping), entries in id order
+fn uf_table(snap: &str) -> String {
+    let mut v: Vec<(usize, String)> = snap
+        .lines()
+        .filter_map(|l| l.strip_prefix("uf "))
+        .filter_map(|l| l.split_once(' '))
+        .map(|(i, e)| (i.parse::<usize>().unwrap(), e.to_string()))
+        .collect();
+    v.sort();
+    v.into_iter().map(|(_, e)| e).collect::<Vec<_>>().join(",")
+}
+
+/// one step of the `ufw` protocol: the `unionfind_set` calls of the operation, then the table it left behind
+fn uf_step(eg: &EGraph<Main>) -> String {
+    let ws: Vec<String> = slotted_egraphs::verif::take_uf_writes().into_iter().map(|(i, e)| format!("{i}:{e}")).collect();
+    format!("{}#{}", ws.join(","), uf_table(&eg.verif_snapshot(|_| "-".to_string())))
+}
+
+pub fn exec_hist(ops: Vec<Op>) -> Vec<Case> {
     let line_ops = enc_ops(&ops);
     let ops2 = ops.clone();
     let r = in_fresh_thread(move || {
@@ -25,6 +43,7 @@ pub fn exec_hist(ops: Vec<Op>) -> Case {
         let mut slots_seen: Vec<usize> = Vec::new();
         let mut equal_pairs: Vec<(usize, usize)> = Vec::new();
         let mut steps: Vec<String> = Vec::new();
+        let mut ufsteps: Vec<String> = Vec::new();
         let mut tags: Vec<String> = Vec::new();
         let mut viol = |t: &str, tags: &mut Vec<String>| {
             let t = format!("viol:{t}");
@@ -33,6 +52,7 @@ pub fn exec_hist(ops: Vec<Op>) -> Case {
             }
         };
         let _ = slotted_egraphs::verif::take_events();
+        let _ = slotted_egraphs::verif::take_uf_writes();
         for (k, op) in ops2.iter().enumerate() {
             let before = eg.verif_measure();
             match op {
@@ -43,13 +63,13 @@ pub fn exec_hist(ops: Vec<Op>) -> Case {
                             slots_seen.push(a.m.len());
                             tracked.push(a)
                         }
-                        Err(e) => return (steps, vec![format!("viol:panic-op{k}"), format!("panic:{e}")]),
+                        Err(e) => return (steps, ufsteps, vec![format!("viol:panic-op{k}"), format!("panic:{e}")]),
                     }
                 }
                 Op::Union(i, j) => {
                     let (a, b) = (tracked[*i].clone(), tracked[*j].clone());
                     if let Err(e) = guarded(|| eg.union(&a, &b)) {
-                        return (steps, vec![format!("viol:panic-op{k}"), format!("panic:{e}")]);
+                        return (steps, ufsteps, vec![format!("viol:panic-op{k}"), format!("panic:{e}")]);
                     }
                     equal_pairs.push((*i, *j));
                 }
@@ -58,17 +78,19 @@ pub fn exec_hist(ops: Vec<Op>) -> Case {
             let after = eg.verif_measure();
             let evs: Vec<&str> = slotted_egraphs::verif::take_events().into_iter().map(|(k, _)| k).collect();
             steps.push(format!("{}>{}:{}", meas(&before), meas(&after), evs.join(".")));
+            ufsteps.push(uf_step(&eg));
             // a rewrite iteration every now and then (which rules: a function of the position, so that the history replays)
             if k % 11 == 7 && eg.total_number_of_nodes() < 120 {
                 let names: [&[&str]; 3] = [&["add-comm", "mul-comm"], &["k-def", "add-assoc"], &["h-def", "sum-swap", "add-comm"]];
                 let rws: Vec<Rewrite<Main>> = names[(k / 11) % 3].iter().filter_map(|n| POOL.iter().find(|r| r.0 == *n)).map(|r| mk_rule(r)).collect();
                 let before = eg.verif_measure();
                 if let Err(e) = guarded(|| apply_rewrites(&mut eg, &rws)) {
-                    return (steps, vec![format!("viol:panic-rewrite-after-op{k}"), format!("panic:{e}")]);
+                    return (steps, ufsteps, vec![format!("viol:panic-rewrite-after-op{k}"), format!("panic:{e}")]);
                 }
                 let after = eg.verif_measure();
                 let evs: Vec<&str> = slotted_egraphs::verif::take_events().into_iter().map(|(k, _)| k).collect();
                 steps.push(format!("{}>{}:{}", meas(&before), meas(&after), evs.join(".")));
+                ufsteps.push(uf_step(&eg));
                 tags.push("t:rewrite-iteration".into());
             }
             // extraction from every handle ever returned, old ones included
@@ -99,7 +121,7 @@ pub fn exec_hist(ops: Vec<Op>) -> Case {
                     Err(e) => {
                         viol(&format!("extract-from-old-handle-panics-op{k}"), &mut tags);
                         tags.push(format!("panic:{e}"));
-                        return (steps, tags);
+                        return (steps, ufsteps, tags);
                     }
                 }
             }
@@ -156,22 +178,27 @@ pub fn exec_hist(ops: Vec<Op>) -> Case {
                 Err(e) => {
                     viol(&format!("old-handle-panics-op{k}"), &mut tags);
                     tags.push(format!("panic:{e}"));
-                    return (steps, tags);
+                    return (steps, ufsteps, tags);
                 }
             }
         }
-        (steps, tags)
+        (steps, ufsteps, tags)
     });
     match r {
-        Ok((steps, tags)) => {
+        Ok((steps, ufsteps, tags)) => {
             let line = format!("prog {}", steps.join(";"));
             let nt = steps.iter().filter(|s| s.contains("shrink") || s.contains("addsym")).count() >= 1;
             let mut tags = tags;
             tags.push(format!("history:{}", line_ops.replace(',', "~")));
             let ones = vec!["1"; steps.len()].join(";");
-            Case { line, impl_out: ones, nontrivial: nt, tags }
+            // the union-find writes of the same run, judged by the Lean write model (`ufw`)
+            let mut utags: Vec<String> = vec![format!("history:{}", line_ops.replace(',', "~"))];
+            let nw: usize = ufsteps.iter().map(|s| s.split('#').next().unwrap().split(',').filter(|w| !w.is_empty()).count()).sum();
+            utags.push(format!("t:writes-{}", if nw < 10 { "lt10" } else if nw < 40 { "lt40" } else { "ge40" }));
+            let ucase = Case { line: format!("ufw {}", ufsteps.join(";")), impl_out: vec!["1"; ufsteps.len()].join(";"), nontrivial: nt, tags: utags };
+            vec![Case { line, impl_out: ones, nontrivial: nt, tags }, ucase]
         }
-        Err(e) => Case { line: "prog ".into(), impl_out: format!("PANIC {e}"), nontrivial: true, tags: vec!["viol:panic".into(), format!("history:{}", line_ops.replace(',', "~"))] },
+        Err(e) => vec![Case { line: "prog ".into(), impl_out: format!("PANIC {e}"), nontrivial: true, tags: vec!["viol:panic".into(), format!("history:{}", line_ops.replace(',', "~"))] }],
     }
 }
 
@@ -227,6 +254,8 @@ pub fn run(ctx: &mut Ctx) {
     let nops = ctx.param("ops", 40);
     for _ in 0..ctx.count {
         let mut rng = ctx.rng.fork();
-        ctx.emit(exec_hist(gen_long(&mut rng, nops)));
+        for c in exec_hist(gen_long(&mut rng, nops)) {
+            ctx.emit(c);
+        }
     }
 }
